@@ -16,7 +16,8 @@ ASSUMPTIONS = [
     'Python floats modelled as exact rationals (Qc); grids are generated on dyadic lattices with few mantissa bits so that '
     'every intermediate value of compute_weights is exactly representable: weights are compared with =',
     'weighted-split trees with the modified basis produce non-dyadic quotients: compared with |impl-model| <= 2^-44*(b-a)',
-    'integrate(): compared with |impl-model| <= 2^-44 * prod_d sum_i |w_i f_d(x_i)|',
+    'integrate(): compared with |impl-model| <= 2^-44 * prod_d sum_i |w_i f_d(x_i)|; the polynomial integrand handed to the implementation '
+    'is evaluated exactly and rounded once (no binary64 cancellation in the function VALUES next to its roots)',
     'certified part: tolerance of degree j is 2^-30 * (sum_i |w_i| |x_i|^j + |exact moment|) (hierarchical rules go through an '
     'LAPACK solve); scope decision: moment clauses are checked where the rule is constructed to satisfy them (boundary points '
     'present, modified basis, or GlobalHighOrderGrid which matches moments on the inner points); Simpson / Lagrange / B-spline '
@@ -226,10 +227,14 @@ def impl_trap(case):
 
     class PolyProd(Function):
         def eval(self, c):
-            r = 1.0
+            # the integrand is evaluated EXACTLY (rationals) and rounded once: a binary64 Horner/power evaluation of e.g. 1 - 3x + 2x^2
+            # next to x = 1 cancels and would hand the implementation function VALUES with a relative error of 1e-9..1e-5, which
+            # the comparison with the exact model (scale sum |w_i f(x_i)|) must not charge to the quadrature code
+            r = F(1)
             for d, cs in enumerate(polys):
-                r *= sum(k * c[d] ** j for j, k in enumerate(cs))
-            return r
+                x = F(float(c[d]))
+                r *= sum(k * x ** j for j, k in enumerate(cs))
+            return float(r)
 
         def output_length(self):
             return 1
